@@ -134,7 +134,7 @@ def run_monitor(samples_bytes, out_dir: Path):
         Process = FakeProc
         NoSuchProcess = Exception
 
-    saved = (mem.__dict__.get("open"), mem.os, mem.psutil, mem.time)
+    saved = (mem.__dict__.get("open"), mem.os, mem.psutil, mem.time, mem.mp)
 
     class TimeProxy:
         def sleep(self, s):
@@ -143,13 +143,32 @@ def run_monitor(samples_bytes, out_dir: Path):
         def perf_counter(self):
             return 0.0
 
+    class SyncProcess:
+        """mp.Process stand-in: start() runs the target in this process"""
+
+        def __init__(self, target=None, args=(), kwargs=None, daemon=None, **kw):
+            self._t, self._a, self._k = target, args, kwargs or {}
+
+        def start(self):
+            self._t(*self._a, **self._k)
+
+    class MpProxy:
+        Process = SyncProcess
+
+        def __getattr__(self, k):
+            import multiprocessing
+            return getattr(multiprocessing, k)
+
     mem.open = open_spy
     mem.os = OsProxy()
     mem.psutil = PsProxy()
     mem.time = TimeProxy()
+    mem.mp = MpProxy()
     try:
         try:
-            mem.monitor_rss_process(out_dir / "monitor-rss.csv", 0.0, 0.0, 1)
+            # through the launcher the CLI uses: whatever it does to the peak file before the
+            # daemon starts is part of the observed protocol
+            mem.launch_monitor_rss_daemon(out_dir / "monitor-rss.csv", 0.0)
         except _Stop:
             pass
     finally:
@@ -157,7 +176,7 @@ def run_monitor(samples_bytes, out_dir: Path):
             del mem.open
         else:
             mem.open = saved[0]
-        mem.os, mem.psutil, mem.time = saved[1], saved[2], saved[3]
+        mem.os, mem.psutil, mem.time, mem.mp = saved[1], saved[2], saved[3], saved[4]
     return events
 
 
